@@ -13,7 +13,8 @@ META = {
             "E(a0,a0)=1 and beta(a1) dE/da1 = gamma(a1) E with gamma, beta truncated at the order and beta_k taken from the "
             "literature table (so the beta wiring is part of the proof). The fixed-alpha_em QED kernel is proved to solve the "
             "same equation with beta0 -> beta0 + a_em beta^(2,1), gamma_k -> sum_j gamma[k+1,j] a_em^j and initial value "
-            "exp(sum_j gamma[0,j] a_em^j ln(mu0^2/mu1^2)), for nf 3-6 and QED orders 1-2.",
+            "exp(sum_j gamma[0,j] a_em^j ln(mu0^2/mu1^2)), for nf 3-6 and QED orders 1-2."
+            " The stepped QED kernel (several coupling steps, one alpha_em) with free intermediate coupling and scale equals the product of the one-step kernels over their own intervals.",
     "note": "Formula-level: floating-point evaluation, branch cuts of complex log/atan/cbrt (nf=6) are not decided; "
             "np.real(delta/Delta) treated as identity as the source documents. PIT in F_p, error < 1e-30.",
     "technique": "partial evaluation to formulas + DAG differentiation + polynomial identity testing (ODE residual = 0)",
